@@ -109,6 +109,15 @@ def gen(tier, rng, shard, nshards):
         hermitian = rng.random() < 0.55
         fn = S.pick(rng, FUNCS)
         node = gen_operator(rng, dt, hermitian, fn)
+        directed = rng.random() < 0.08
+        if directed:
+            # singular positive semi-definite with repeated eigenvalues and a Krylov algorithm: the Krylov space is exhausted
+            # after two or three steps and the genuine zero eigenvalue sits next to the zero padding of the projected matrix
+            fn, hermitian = "exp", True
+            n_ = int(rng.integers(3, 7))
+            vals = sorted(float(x) for x in rng.choice([0.5, 4.0 / 3.0, 2.0], size=2, replace=False))
+            node = {"k": "Annot", "name": "PSD", "arg": {"k": "Dense", "shape": [n_, n_], "dt": dt if dt != "f4" else "f8", "seed": S.seed(rng), "gen": "herm",
+                                                        "eigs": [0.0] + [vals[int(j)] for j in np.sort(rng.integers(0, 2, size=n_ - 1))]}}
         if hermitian and node["k"] in ("Transpose", "Adjoint", "KronSum", "Kronecker", "BlockDiag"):
             # cola may forget an annotation on the way (A.H of a declared Dense is a fresh Dense): the Hermitian
             # composite is declared at the top, truthfully, so that Eigh/Lanczos are admissible
@@ -116,6 +125,8 @@ def gen(tier, rng, shard, nshards):
         n = R.shape_of(node)[0]
         if hermitian:
             alg = S.pick(rng, ["omitted", "Auto", "Eigh", "Eig", "Lanczos", "Lanczos", "Arnoldi"])
+            if directed:
+                alg = S.pick(rng, ["Arnoldi", "Arnoldi", "Lanczos"])
         else:
             alg = S.pick(rng, ["omitted", "Auto", "Eig", "Eig", "Arnoldi", "Arnoldi"])
         iters = S.pick(rng, ["n", "n+3", "default"])
